@@ -16,3 +16,5 @@ reg("C17", "exploration", [P("curve", "spline")])
 reg("C18", "exploration", [P("curve", "angle")])
 reg("C09", "exploration", [P("xform", "algebra")])
 reg("C08", "exploration", [P("xform", "proj")])
+reg("C04", "exploration", [P("rast", "cover")])
+reg("C05", "exploration", [P("rast", "interp")])
